@@ -43,8 +43,11 @@ ASSUMPTIONS = [
     "iteration counts 4 / 5 / 7 represent <= lower endpoint, inside, >= upper endpoint of "
     "the default optimal range (4, 7); the property does not say which count maps to which "
     "adaptation, so only the invariants of the statement are demanded",
-    "a scheduled time counts as hit / the final time as not exceeded up to 1e-9*max(1, "
-    "t_final) (the manager itself uses rtol 1e-10); clock rewind up to 1e-12 relative",
+    "a scheduled time s counts as hit / the final time as not exceeded up to 10*(rtol*|s| + atol) "
+    "with the manager's own rtol 1e-10 and the atol given to its constructor; clock rewind up to "
+    "1e-12 relative; no absolute constant enters the monitor (time-unit invariant)",
+    "time-scale axis: schedule, dt_init, dt_min_max (and atol, unless the default-atol variant) "
+    "are multiplied by a power of two, so the scaled problems are exactly similar to unit scale",
     "a raise on a failed step is accepted when the consecutive failures have used up "
     "recomp_max, or the failed step already used dt == dt_min (documented: recomputation "
     "would have no effect), or dt is constant (no recomputation exists)",
@@ -83,6 +86,11 @@ TIERS = {
         recomp=((0.5, 2), (0.25, 1)),
         depth=6,
         dev=((10, 2), (10**9, 1)),
+        scaled=dict(
+            schedules=[((0.0,), (2,), (0.5, 0.2))],
+            fracs=(0.5, 0.25),
+            dtmm=("wide", "narrow"),
+        ),
     ),
     "thorough": dict(
         schedules=[((0.0,), (1, 2), (0.5, 1.0, 0.2, 3.0)), ((0.0,), (3,), (0.5, 0.2, 3.0)), ((0.0,), (4,), (0.5, 0.2)),
@@ -93,6 +101,11 @@ TIERS = {
         recomp=((0.5, 2), (0.25, 1), (0.5, 3)),
         depth=7,
         dev=((5, 3), (10, 2), (10**9, 1)),
+        scaled=dict(
+            schedules=[((0.0,), (2, 3), (0.5, 0.2)), ((1.0,), (2,), (0.5, 0.2))],
+            fracs=(1.0, 0.5, 0.25),
+            dtmm=("wide", "narrow", "none"),
+        ),
     ),
 }
 BOUNDS = {
@@ -100,14 +113,23 @@ BOUNDS = {
     "start 1 x 2 intervals from {0.5,0.2}; dt_init = first interval x {1,1/2,1/4}; dt_min_max "
     "{(dt/8,4dt),(dt/2,dt),(dt,first interval),None}; relax {(0.5,2),(0.7,1.3)}; (recomp_factor,recomp_max) "
     "{(0.5,2),(0.25,1)}; constant_dt on compatible schedules; H: all answer sequences up to length 6 (or "
-    "closure); D: a run with n solver calls gets one more deviation (every later placement, every kind) while it has < 2 (n <= 10) or < 1 (n > 10) deviations; all runs to the end",
+    "closure); D: a run with n solver calls gets one more deviation (every later placement, every kind) while it has < 2 (n <= 10) or < 1 (n > 10) deviations; all runs to the end; "
+    "time-scale axis: schedules start 0 x 2 intervals from {0.5,0.2}, dt_init = first x {1/2,1/4}, dt_min_max "
+    "{(dt/8,4dt),(dt/2,dt)}, all relax/recomp, times 2^k for k in {-40,-30,-20,10,30} (atol scaled) and k in {-30,-20} with default atol",
     "thorough": "schedules: start 0 x 1-2 intervals from {0.5,1,0.2,3}, start 0 x 3 intervals from {0.5,0.2,3}, "
     "start 0 x 4 intervals from {0.5,0.2}, start 1 x 1-2 intervals from {0.5,1,0.2,3}; dt_init = first interval x "
     "{1,1/2,1/4,1/5}; dt_min_max as quick; relax {(0.5,2),(0.7,1.3),(0.9,1.1)}; (recomp_factor,recomp_max) "
     "{(0.5,2),(0.25,1),(0.5,3)}; constant_dt; H: all answer sequences up to length 7 (or closure); D: a run with n solver "
     "calls gets one more deviation (every later placement, every kind) while it has < 3 (n <= 5), < 2 (n <= 10) or < 1 "
-    "(n > 10) deviations; all runs to the end",
+    "(n > 10) deviations; all runs to the end; time-scale axis: schedules start 0 x 2-3 intervals and start 1 x 2 intervals "
+    "from {0.5,0.2}, dt_init = first x {1,1/2,1/4}, dt_min_max {(dt/8,4dt),(dt/2,dt),None}, all relax/recomp, times 2^k "
+    "for k in {-40,-30,-20,10,30} (atol scaled) and k in {-30,-20} with default atol",
 }
+# time-scale axis (STRENGTHEN.md, pattern 3): powers of two next to 1e-12, 1e-9, 1e-6, 1e3, 1e9.
+# (exponent, atol variant): "scaled" = atol 1e-16*scale passed to the constructor, "default" =
+# constructor default 1e-16 (only where it stays << the smallest step: 1e-7 / 1e-10 relative)
+SCALES = ((-40, "scaled"), (-30, "scaled"), (-30, "default"), (-20, "scaled"), (-20, "default"),
+          (10, "scaled"), (30, "scaled"))
 MIN_CLASSES = 8
 CHUNK = 6
 
@@ -133,10 +155,39 @@ def cases(tier):
                 for relax in P["relax"]:
                     out.append({"schedule": sched, "dt_init": dt, "dtmm": kind, "relax": list(relax), "tier": tier})
             out.append({"schedule": sched, "dt_init": dt, "dtmm": "constant", "relax": None, "tier": tier})
+    S = P["scaled"]
+    for exp, atol in SCALES:
+        for sched in _schedules(S["schedules"]):
+            first = round(sched[1] - sched[0], 10)
+            for frac in S["fracs"]:
+                for kind in S["dtmm"]:
+                    for relax in P["relax"]:
+                        out.append({"schedule": sched, "dt_init": first * frac, "dtmm": kind, "relax": list(relax),
+                                    "tier": tier, "scale_exp": exp, "atol": atol})
     return out
 
 
 def _configs(case):
+    """Unit-scale configurations of a case; ``_scaled`` multiplies them by the case's scale."""
+    for cfg in _unit_configs(case):
+        yield _scaled(cfg, case)
+
+
+def _scaled(cfg, case):
+    exp = case.get("scale_exp")
+    if exp is None:
+        return cfg
+    f = 2.0 ** exp
+    c = dict(cfg)
+    c["schedule"] = [t * f for t in cfg["schedule"]]
+    c["dt_init"] = cfg["dt_init"] * f
+    if cfg.get("dt_min_max") is not None:
+        c["dt_min_max"] = [x * f for x in cfg["dt_min_max"]]
+    c["atol"] = 1e-16 * f if case["atol"] == "scaled" else None
+    return c
+
+
+def _unit_configs(case):
     P = TIERS[case["tier"]]
     sched, dt = case["schedule"], case["dt_init"]
     first = round(sched[1] - sched[0], 10)
@@ -343,7 +394,7 @@ def run_case(case) -> Outcome:
     first = round(sched[1] - sched[0], 10)
     assert dt <= first * (1 + 1e-12)  # the initial step fits in the first scheduled interval
     for j, cfg in enumerate(_configs(case)):
-        cid = (tuple(sched), dt, case["dtmm"], tuple(case["relax"] or ()), j)
+        cid = (tuple(sched), dt, case["dtmm"], tuple(case["relax"] or ()), j, case.get("scale_exp"), case.get("atol"))
         valid, why = T.documented_valid(cfg)
         try:
             T.make_tm(cfg)
